@@ -211,6 +211,30 @@ E["C12"] = dict(
     note="Trusted: libc float digit generation; valtoint/valtoflt/valtostr results are carried as arguments; GROW buffer management (ASan); widths/precisions >= 2^31 outside the claim "
          "(`%.2147483648g` overflows a stack buffer in fmt.c: recorded under C01's scope in DESIGN.md).",
     tech="Lean 4 proof (hawk's integer/char/string conversions = ISO C rendering for all flags/widths/precisions/values) + snprintf oracle + differential correspondence")
+E["C02"] = dict(
+    text="PARTIAL by nature (equality with reference implementations is differential). Lean 4 theorems (Props/C02.lean, 40 obligations) about a hand-written Lean reference interpreter for the "
+         "POSIX-compatible subset (BEGIN/END/pattern/range rules, control flow, exact-integer and string expressions, fields/NF/$0 rebuilds, blank and single-char FS, OFS/ORS/SUBSEP, arrays "
+         "by reference, user functions with recursion, the string builtins, integer/string printf conversions, the four getline forms, > >> close, numeric strings; fuel with an explicit "
+         "out-of-fuel error): range_automaton_spec (a range rule fires on record i iff some j<=i matches begin and no record in [j,i) matches end), the twelve driver_phases theorems (exit in "
+         "BEGIN skips input and still runs END; exit in a main rule runs END; exit in END stops; status = last exit expr mod 256; next; end of input), getline_counters for every form, "
+         "uninitialised = 0 and empty, number<->string round trips on canonical numerals, determinism, fuel exhaustion is reported. Two ties: hawk <-> model on typed-generator programs x "
+         "multi-file inputs, and (gawk --posix AND mawk agree) <-> model, which validates the model as reference; hawk != agreed references (model = references) is a violation with program, "
+         "inputs and the outputs as replay; model != references is a model bug (correspondence, no failing input).",
+    note="Trusted: gawk 5.2.1 and mawk 1.3.4 where they agree; the pairing of awk text and encoded AST in the generator. Outside the profile: inexact division, non-canonical numerals, "
+         "index(s,\"\"), substr with start < 0 (references disagree). Two recorded findings (numeric-string detection of bare fields is off because hawk_clear drops the option bit; the subscript "
+         "of a read-modify-write lvalue is evaluated twice).",
+    tech="Lean 4 proof about a reference interpreter (range automaton, phase driver, getline counters) + two differential correspondences (hawk and gawk/mawk vs the model)")
+E["C06"] = dict(
+    text="PARTIAL (TRE's TNFA construction and its two matchers are NOT modelled; they are tied by bounded exhaustive correspondence only). Lean 4 theorems (Props/C06.lean, 27) about a "
+         "verified SPECIFICATION matcher for EREs (chars, ., bracket classes, ^ $, concat, |, * + ? {m,n}, groups; NOTBOL; IGNORECASE): ends_sound_complete (the executable set of end positions "
+         "= the denotational Matches relation), matchLL_sound_complete (returns (start,len) iff it is a match, none starts earlier, none from that start is longer; none iff no match), uniqueness, "
+         "the algebraic laws (star unfolding, {m,n} expansions, groups transparent), icase_eq_fold, notbol_suffix. Harness: the real hawk_rtx_matchrex wrappers (backtracking engine, which every "
+         "awk-level match uses), the parallel engine (used by hawk-sed) and glibc regexec on every ERE tree up to a size bound over {a,b} x every subject up to a length bound x IGNORECASE x NOTBOL "
+         "(1.2M pairs quick, 15.8M thorough), plus ~, match(), gsub, split, regex FS at language level; a python leftmost-longest reference and engine agreement are the oracle, then the Lean "
+         "matcher is compared with the reference.",
+    note="Trusted: the unverified ERE text parser in the driver (cross-checked by a python parser and glibc on every pair); ASCII case folding; submatch offsets not compared. One recorded finding "
+         "(tre-empty-path-anchor: a nullable sub-expression is skipped along one fixed empty path whose ^/$ assertions it inherits; both engines).",
+    tech="Lean 4 proof of a specification matcher (leftmost-longest soundness and completeness) + bounded-exhaustive correspondence with both TRE engines and glibc")
 
 claimed = sorted(E)
 checks = []
